@@ -570,7 +570,7 @@ def write_evidence(pid, tier, base_seed, mod, rows, agg, wall, nviol, extra):
     for r in rows:
         if "case" in r and len(samples) < 3:
             samples.append({"k": r["k"], "seed": r["seed"],
-                            "case": r["case"],
+                            "case": _trim(r["case"]),
                             "observed": r.get("observed"),
                             "violations": r["violations"]})
     ev = {
@@ -608,6 +608,20 @@ def write_evidence(pid, tier, base_seed, mod, rows, agg, wall, nviol, extra):
     with open(tmp, "w") as f:
         json.dump(ev, f, indent=1, sort_keys=True, default=str)
     os.replace(tmp, os.path.join(d, f"{pid}.json"))
+
+
+def _trim(case, keep=14):
+    """a sample case for the evidence file: long operation lists and file
+    sets are cut (the totals are kept) so that the file stays readable"""
+    c = json.loads(json.dumps(case))
+    for key in ("ops", "stmts"):
+        if isinstance(c.get(key), list) and len(c[key]) > keep:
+            c[key + "_total"] = len(c[key])
+            c[key] = c[key][:keep]
+    if isinstance(c.get("files"), dict) and len(c["files"]) > 6:
+        c["files_total"] = len(c["files"])
+        c["files"] = {k: c["files"][k] for k in sorted(c["files"])[:6]}
+    return c
 
 
 def cleanup():
